@@ -1029,7 +1029,7 @@ fn replace_tokens(
         if is_match(&i) {
             let span = i.span();
             for mut t in replacer.clone() {
-                t.set_span(span);
+                t.set_span(t.span().located_at(span));
                 ts.extend(once(t));
             }
         } else if let TokenTree::Group(g) = &i {
@@ -1108,7 +1108,8 @@ impl Template {
 
     fn build_hash_stmt(&self, this: TokenStream) -> TokenStream {
         let this = self.apply(this);
-        quote_spanned!(this.span()=> ::core::hash::Hash::hash(&(#this), state);)
+        let span = Span::call_site().located_at(this.span());
+        quote_spanned!(span=> ::core::hash::Hash::hash(&(#this), state);)
     }
 }
 fn build_to_index_fn(variants: &[VariantEntry]) -> TokenStream {
